@@ -200,6 +200,22 @@ func (d *Device) Set(ctx context.Context, r *gnmi.SetRequest) (resp *gnmi.SetRes
 		// code (a device does not change its mind because the controller failed to record the answer). Transient
 		// answers (Unavailable, Canceled, DeadlineExceeded) are one-shot.
 		reqKey := fmt.Sprint(rec.Ops)
+		contentRefused := false
+		if d.RejectValue != "" {
+			for _, o := range rec.Ops {
+				if !o.Del && strings.Contains(o.V, d.RejectValue) {
+					contentRefused = true
+				}
+			}
+		}
+		if contentRefused && has && f.Kind == "code" && f.Code != codes.Unavailable && f.Code != codes.Canceled && f.Code != codes.DeadlineExceeded {
+			// the content rule is this device's verdict on the request, every time it is sent: an injected definite code
+			// at the ordinal of a re-sent request must not replace it (the oracle would see two different refusals of
+			// one request - a false alarm of the first version, found when the generators were extended in round 2)
+			delete(d.Faults, n)
+			has = false
+			d.k.Probe("dev-refusal-superseded-by-content-rule")
+		}
 		if c, again := d.refused[reqKey]; again {
 			delete(d.Faults, n)
 			f, has = DevFault{Kind: "code", Code: c}, true
